@@ -3,7 +3,8 @@
 (* complete environment, result, projected store - is re-computed by the SAME scanner actions of Expand  *)
 (* and the recorded result must be one of the acceptable results.  The file named by env TRACE holds one *)
 (* JSON object per line:                                                                                 *)
-(*   {"reset":bool, "env":[[name,value],...], "input":[..], "isnull":bool, "got":[..], "store":[[k,v],..]} *)
+(*   {"reset":bool, "env":[[name,value],...], "prog":[name,version], "input":[..], "isnull":bool,          *)
+(*    "got":[..], "store":[[k,v],..]}                                                                    *)
 (* reset = the recording process started from an empty store.  One JSON verdict line is printed per      *)
 (* event; an event whose value the specification does not claim is consumed without comparing.           *)
 EXTENDS Expand, IOUtils
@@ -15,8 +16,11 @@ EnvTrace(e, nm) == LET ev == Tr[e].env
                        hit == {i \in 1 .. Len(ev) : ev[i][1] = nm}
                    IN IF hit = {} THEN <<>> ELSE ev[CHOOSE i \in hit : TRUE][2]
 StartsNone(st) == {}
-AppNameTr == <<97, 112>>          \* "ap"
-AppVersionTr == <<49, 46, 50>>    \* "1.2"
+AppNameTr(e) == Tr[e].prog[1]         \* program name / version in force when the event was recorded
+AppVersionTr(e) == Tr[e].prog[2]
+
+\* the text contains "%put" in any case: the only way for an expansion to change the store
+HasPut(t) == \E i \in 1 .. Len(t) - 3 : t[i] = PCT /\ Lower(t[i + 1]) = 112 /\ Lower(t[i + 2]) = 117 /\ Lower(t[i + 3]) = 116
 
 Matches(ret, post, ev) ==
     /\ ~ev.isnull
@@ -27,7 +31,7 @@ ObsTrace(op, args, ret, post) ==
     LET ev == Tr[l]
         cl == ret.claimed /\ ~lost
         ok == cl => Matches(ret, post, ev)
-    IN /\ lost' = (lost \/ ~ret.claimed)
+    IN /\ lost' = (lost \/ (~ret.claimed /\ HasPut(args[2])))     \* only %put can change the store
        /\ PrintT(ToJson([l |-> l, ok |-> ok, claimed |-> cl, why |-> IF lost THEN "store-unknown" ELSE ret.why,
                          trunc |-> ret.trunc, alts |-> Cardinality(ret.outs)]))
 
